@@ -141,6 +141,21 @@ func snapshot() string {
 	return strings.Join(ents, "+")
 }
 
+func encOpt(f []string, n int) []gtree.Option {
+	// optional trailing field: an encoding option passed to an entry point other than Output*
+	if len(f) > n {
+		switch f[n] {
+		case "j":
+			return []gtree.Option{gtree.WithEncodeJSON()}
+		case "y":
+			return []gtree.Option{gtree.WithEncodeYAML()}
+		case "t":
+			return []gtree.Option{gtree.WithEncodeTOML()}
+		}
+	}
+	return nil
+}
+
 func histMore(f []string, node func(string) *gtree.Node, massive bool) (string, bool) {
 	var mopt []gtree.Option
 	if massive {
@@ -186,6 +201,7 @@ func histMore(f []string, node func(string) *gtree.Node, massive bool) (string, 
 			}
 			opts = append(opts, gtree.WithBranchFormatLastNode(unhex(f[5]), unhex(f[6])), gtree.WithBranchFormatIntermedialNode(unhex(f[7]), unhex(f[8])))
 			opts = append(opts, mopt...)
+			opts = append(opts, encOpt(f, 9)...)
 			if f[0] == "M" {
 				err = gtree.MkdirFromRoot(node(f[1]), opts...)
 			} else {
@@ -204,6 +220,7 @@ func histMore(f []string, node func(string) *gtree.Node, massive bool) (string, 
 			}
 			opts = append(opts, gtree.WithBranchFormatLastNode(unhex(f[4]), unhex(f[5])), gtree.WithBranchFormatIntermedialNode(unhex(f[6]), unhex(f[7])))
 			opts = append(opts, mopt...)
+			opts = append(opts, encOpt(f, 9)...)
 			if f[0] == "m" {
 				err = gtree.MkdirFromMarkdown(strings.NewReader(unhex(f[8])), opts...)
 			} else {
@@ -225,6 +242,7 @@ func histMore(f []string, node func(string) *gtree.Node, massive bool) (string, 
 				opts = append(opts, gtree.WithTargetDir(unhex(f[3])))
 			}
 			opts = append(opts, mopt...)
+			opts = append(opts, encOpt(f, 4)...)
 			if f[0] == "V" {
 				err = gtree.VerifyFromRoot(node(f[1]), opts...)
 			} else {
@@ -239,6 +257,7 @@ func histMore(f []string, node func(string) *gtree.Node, massive bool) (string, 
 				opts = append(opts, gtree.WithTargetDir(unhex(f[2])))
 			}
 			opts = append(opts, mopt...)
+			opts = append(opts, encOpt(f, 4)...)
 			if f[0] == "v" {
 				err = gtree.VerifyFromMarkdown(strings.NewReader(unhex(f[3])), opts...)
 			} else {
